@@ -176,26 +176,44 @@ pub fn test_nonword(c: &NonWordCase, ctx: &mut CaseCtx) -> Result<(), String> {
             c.word, text, l.span.start, l.span.end, start, end
         ));
     }
-    for s in &l.suggestions {
-        let Suggestion::ReplaceWith(r) = s else {
-            return Err(format!("spelling suggestion {s:?} is not a replacement"));
-        };
-        let mut lf = r.clone();
-        if let Some(f) = lf.first_mut() {
-            *f = f.to_lowercase().next().unwrap_or(*f);
+    let check_suggestions = |l: &Lint, pass: &str| -> Result<(), String> {
+        for s in &l.suggestions {
+            let Suggestion::ReplaceWith(r) = s else {
+                return Err(format!("spelling suggestion {s:?} is not a replacement"));
+            };
+            let mut lf = r.clone();
+            if let Some(f) = lf.first_mut() {
+                *f = f.to_lowercase().next().unwrap_or(*f);
+            }
+            let ok = dict.contains_exact_word(r) || dict.contains_exact_word(&lf);
+            let meta_ok = dict
+                .get_word_metadata(r)
+                .is_some_and(|m| m.dialect.is_none_or(|d| d == active));
+            if !ok || !meta_ok {
+                return Err(format!(
+                    "{pass}: suggestion {:?} for {:?} (dialect {:?}) is not a dictionary word of the active dialect (exact={ok}, dialect_ok={meta_ok})",
+                    r.iter().collect::<String>(),
+                    c.word,
+                    active
+                ));
+            }
         }
-        let ok = dict.contains_exact_word(r) || dict.contains_exact_word(&lf);
-        let meta_ok = dict
-            .get_word_metadata(r)
-            .is_some_and(|m| m.dialect.is_none_or(|d| d == active));
-        if !ok || !meta_ok {
-            return Err(format!(
-                "suggestion {:?} for {:?} (dialect {:?}) is not a dictionary word of the active dialect (exact={ok}, dialect_ok={meta_ok})",
-                r.iter().collect::<String>(),
-                c.word,
-                active
-            ));
-        }
+        Ok(())
+    };
+    check_suggestions(l, "first check")?;
+    // the same linter checks the same word again (every re-lint in an editor does): the answer
+    // must obey the same rules when it comes out of the linter's caches
+    let again = spell_lints(&format!("{text} And {} again.", c.word), c.dialect);
+    let mut seen = 0;
+    for l2 in again.iter().filter(|l| {
+        let cs: Vec<char> = format!("{text} And {} again.", c.word).chars().collect();
+        cs[l.span.start..l.span.end.min(cs.len())] == wc[..]
+    }) {
+        seen += 1;
+        check_suggestions(l2, "checked again by the same linter")?;
+    }
+    if seen != 2 {
+        return Err(format!("non-word {:?} occurs twice in the second text but {seen} occurrences are reported", c.word));
     }
     Ok(())
 }
@@ -359,6 +377,20 @@ fn user_word_strategy() -> BoxedStrategy<UserWord> {
         .boxed()
 }
 
+fn tagged_entries() -> &'static Vec<String> {
+    static T: std::sync::OnceLock<Vec<String>> = std::sync::OnceLock::new();
+    T.get_or_init(|| {
+        let dict = FstDictionary::curated();
+        g::harvest()
+            .dict_words
+            .iter()
+            .filter(|w| w.chars().all(|c| c.is_ascii_alphabetic()) && w.len() > 3)
+            .filter(|w| dict.get_word_metadata_str(w).is_some_and(|m| m.dialect.is_some()))
+            .cloned()
+            .collect()
+    })
+}
+
 const FRAMES: &[(&str, &str)] = &[
     ("The ", " is here."),
     ("We saw a ", " today"),
@@ -520,6 +552,21 @@ pub fn run(run: &mut Run) {
         || {
             let w = prop_oneof![
                 3 => g::near_word(),
+                3 => (any::<u16>(), any::<u16>(), 0u8..3, 0u8..26).prop_map(|(pick, pos, op, letter)| {
+                    // one edit away from an entry that is tagged with a dialect
+                    let tagged = tagged_entries();
+                    let mut c: Vec<char> = tagged[crate::core::pick_idx(pick, tagged.len())].chars().collect();
+                    let p = crate::core::pick_idx(pos, c.len().max(1));
+                    let l = (b'a' + letter) as char;
+                    match op {
+                        0 if c.len() > 2 => {
+                            c.remove(p);
+                        }
+                        1 => c.insert(p, l),
+                        _ => c[p] = l,
+                    }
+                    c.into_iter().collect::<String>()
+                }),
                 1 => "[a-z]{2,10}",
                 1 => "[A-Z][a-z]{1,8}",
                 1 => g::near_word().prop_map(|w| w.to_uppercase()),
